@@ -281,6 +281,16 @@ class SegmentTensor(PolytopeTensor):
             return other.intersect(self)
 
         if isinstance(other, SegmentTensor):
+            if self.dim > 2:
+                # skew segments have no point in common
+                coplanar = self._line.is_coplanar(other._line)
+                if not np.all(coplanar):
+                    if not np.any(coplanar):
+                        return []
+                    a = self[coplanar] if isinstance(self, SegmentCollection) else self
+                    b = other[coplanar] if isinstance(other, SegmentCollection) else other
+                    return cast(SegmentTensor, a).intersect(cast(SegmentTensor, b))
+
             result = meet(self._line, other._line, _check_dependence=False)
             ind = ~result.is_zero() & self.contains(result) & other.contains(result)
         else:
